@@ -24,7 +24,7 @@ ROUTES = ["compiler", "direct", "parse_single"]
 BROKEN = ["{", "{ RdV = ; }", "{ RdV = RsV }", "{ RdV = (RsV; }", "{ RdV = RsV $ 1; }", "{ @ }", "{ if (PuV { RdV = RsV; } }",
           "{ RdV = RsV; } }"]
 NODE = os.path.join(VERIF_DIR, "sim", "parse_node.py")
-F10_RE = re.compile(r"(\+\+\s*-)|(--\s*\+)")
+F10_RE = re.compile(r"(\+\+|--)\s*[-+]")
 
 
 def print_case(ast, seed, paren_postfix, style=None):
@@ -97,6 +97,13 @@ class EngineG(EngineBase):
             e = self.pairs[(base + k) % len(self.pairs)]
             ast = ("expr", ("assign", "=", ("atom", ("id", "tmp")), e))
             texts.append(self._gen_text(ch, ast, paren_postfix, "pair"))
+        # blank-sensitive texts go first: the short histories of parse_single nodes always contain them
+        hz = gen_c.blank_sensitive_cases()
+        for _ in range(2):
+            e = ch.choice(hz, "hazard")
+            ast = ("expr", ("assign", "=", ("atom", ("id", "tmp")), e))
+            j = gen_c.to_jsonable(ast)
+            texts.append({"kind": "gen", "ast": j, "pseed": 0, "pp": False, "text": print_case(j, 0, False, "spaced"), "hazard": True})
         if ch.chance(1, 2, "twins"):
             # two different ASTs whose texts differ only in whitespace: a parser (or cache) that ignores token
             # boundaries confuses them, and different nodes see them in different orders
@@ -129,7 +136,8 @@ class EngineG(EngineBase):
             route = ch.weighted([("compiler", 5), ("direct", 3), ("parse_single", 1)], "route")
             order = ch.shuffle(list(range(len(texts))), "order")
             if route == "parse_single":
-                order = order[:6]            # a new Lark per text: 0.2 s each
+                hazards = [i for i, t in enumerate(texts) if t.get("hazard")]
+                order = hazards + [i for i in order if i not in hazards][:5]            # a new Lark per text: 0.2 s each
             else:
                 # repetitions: the same text at two positions of one history
                 for _ in range(ch.randint(0, 2, "reps")):
